@@ -48,9 +48,11 @@ def fresh_tag():
 class SWorld(object):
     """
     case = {"nctx", "serialized", "npoints", "classes": [{"parent": -1|idx, "entries": [entry]}]}
-    entry = {"name", "cid", "kind": single|group|via|free|viafree|pdep, "ctxs": [ctx ids], "helper": cid|None, "pdep": name|None}
-    component ids: contexts 0..nctx-1, points nctx..nctx+npoints-1 (point of name k = nctx+k), then helpers / implementations.
-    Attribute names: "p<k>"; names >= npoints are not registry points.
+    entry = {"name", "cid", "kind": single|group|via|free|viafree|pdep|point, "ctxs": [ctx ids], "helper": cid|None, "pdep": name|None}
+    The root class declares the registry points p0..p<npoints-1>; a class of the history extends the root (parent -1)
+    or an earlier class of the history, and may RE-DECLARE registry points (kind "point") next to its datasources.
+    component ids: contexts 0..nctx-1, root points nctx..nctx+npoints-1 (point of name k = nctx+k), then helpers /
+    implementations / re-declared points.  Attribute names: "p<k>".  Model class ids: root = 0, class i = i+1.
     """
 
     def __init__(self, case, define_all=True):
@@ -69,8 +71,10 @@ class SWorld(object):
                 self.ctxs.append(type("Ctx%d_%s" % (i, tag), (ExecutionContext,), {}))
             self.comps[i] = self.ctxs[i]
         self.root = type("Root_" + tag, (SpecSet,), dict(("p%d" % k, RegistryPoint()) for k in range(self.npoints)))
+        self.points = []
         for k in range(self.npoints):
             self.comps[self.nctx + k] = getattr(self.root, "p%d" % k)
+            self.points.append(self.nctx + k)
         self.classes = []
         self.decls = {}     # cid -> (items text for the driver)
         self.defined = 0    # number of classes of the history created so far
@@ -85,9 +89,14 @@ class SWorld(object):
         before = set(self.decls)
         ns = {}
         for e in cd["entries"]:
-            ns["p%d" % e["name"]] = self._make(e, self.tag)
+            ns["p%d" % e["name"]] = RegistryPoint() if e["kind"] == "point" else self._make(e, self.tag)
         parent = self.root if cd["parent"] < 0 else self.classes[cd["parent"]]
-        self.classes.append(type("I%d_%s" % (ci, self.tag), (parent,), ns))
+        cls = type("I%d_%s" % (ci, self.tag), (parent,), ns)
+        self.classes.append(cls)
+        for e in cd["entries"]:
+            if e["kind"] == "point":
+                self.comps[e["cid"]] = getattr(cls, "p%d" % e["name"])
+                self.points.append(e["cid"])
         self.defined += 1
         self.ids = dict((c, i) for i, c in self.comps.items())
         return sorted(set(self.decls) - before)
@@ -145,55 +154,62 @@ class SWorld(object):
         self.decls[cid] = items
         return self._ds(cid, deps, tag)
 
-    # -- what the generator knows, independently of the implementation
-    def direct_entries(self):
-        return [e for cd in self.case["classes"][:self.defined] if cd["parent"] < 0 for e in cd["entries"]]
-
-    def impls_of(self, name):
-        return [e for e in self.direct_entries() if e["name"] == name and name < self.npoints]
-
     # -- protocol
     def header_lines(self):
-        return ["new"] + ["point\t%d\t%d" % (k, self.nctx + k) for k in range(self.npoints)]
+        return ["new", "hclass\t-\t%s" % (";".join("%d:%d:P:-" % (k, self.nctx + k) for k in range(self.npoints)) or "-")]
+
+    def parents_ids(self, ci):
+        """the parents chain of class ci as the REAL metaclass sees it: cls.__mro__ without cls, SpecSet, object"""
+        cls = self.classes[ci]
+        idx = {self.root: 0}
+        for i, c in enumerate(self.classes):
+            idx[c] = i + 1
+        return [idx.get(x, 10 ** 6) for x in cls.__mro__ if x not in (cls, SpecSet, object)]
 
     def class_lines(self, ci, walk, new_cids):
         cd = self.case["classes"][ci]
-        es = ";".join("%d:%d:%s" % (e["name"], e["cid"], ".".join(map(str, sorted(walk[e["cid"]]))) or "-") for e in cd["entries"])
-        out = ["class\t%d\t%s" % (1 if cd["parent"] < 0 else 0, es or "-")]
+        es = ";".join("%d:%d:%s:%s" % (e["name"], e["cid"], "P" if e["kind"] == "point" else "D",
+                                       ".".join(map(str, sorted(walk[e["cid"]]))) or "-") for e in cd["entries"])
+        out = ["hclass\t%s\t%s" % (",".join(map(str, self.parents_ids(ci))) or "-", es or "-")]
         for cid in new_cids:
             out.append("decl\t%d\t%s\t-" % (cid, self.decls[cid]))
         return out
 
     def reg_line(self):
-        return "reg\t%s\t%s" % (",".join(map(str, range(self.npoints + 1))), ",".join(map(str, self.univ())) or "-")
+        return "hreg\t%s\t%s" % (",".join(map(str, sorted(self.points))) or "-", ",".join(map(str, self.univ())) or "-")
 
     def run_line(self, active, order, keys, outcome):
-        return "run\t%s\t%s\t%s\t%s\t%s" % (",".join(map(str, active)) or "-", ",".join(map(str, order)) or "-",
-                                              ",".join(map(str, sorted(keys))) or "-",
-                                              ",".join(map(str, self.univ())) or "-", outs_text(outcome))
+        return "hrun\t%s\t%s\t%s\t%s\t%s" % (",".join(map(str, active)) or "-", ",".join(map(str, order)) or "-",
+                                               ",".join(map(str, sorted(keys))) or "-",
+                                               ",".join(map(str, self.univ())) or "-", outs_text(outcome))
 
     def univ(self):
         return sorted(c for c in self.comps if c >= self.nctx)
 
+    def flat_shaped(self):
+        return not any(e["kind"] == "point" for cd in self.case["classes"][:self.defined] for e in cd["entries"])
+
+    def flat_tag(self):
+        # what the driver must report: the flat model (one class declares the points) agrees where it applies
+        return "|flat=" + ("agree" if self.flat_shaped() else "n/a")
+
     # -- implementation side
     def reg_text(self):
-        deps = ";".join("%d:%s" % (k, ",".join(str(self.ids.get(d, "?")) for d in dr.get_delegate(self.comps[self.nctx + k]).deps))
-                        for k in range(self.npoints))
-        # a name that is not a registry point has no dependency list at all
-        deps += (";" if deps else "") + "%d:" % self.npoints
+        pts = sorted(self.points)
+        deps = ";".join("%d:%s" % (p, ",".join(str(self.ids.get(d, "?")) for d in dr.get_delegate(self.comps[p]).deps)) for p in pts)
         ign = []
         for cid in self.univ():
             s = dr.IGNORE.get(self.comps[cid])
             if s:
                 ign.append("%d:%s" % (cid, ",".join(str(x) for x in sorted(self.ids.get(c, 10 ** 6) for c in s))))
-        alo = all(dr.get_delegate(self.comps[self.nctx + k]).at_least_one == [dr.get_delegate(self.comps[self.nctx + k]).deps]
-                  and not dr.get_delegate(self.comps[self.nctx + k]).requires for k in range(self.npoints))
-        return "deps=%s|ign=%s" % (deps, ";".join(ign)) + ("" if alo else "|at_least_one-differs")
+        alo = all(dr.get_delegate(self.comps[p]).at_least_one == [dr.get_delegate(self.comps[p]).deps]
+                  and not dr.get_delegate(self.comps[p]).requires for p in pts)
+        return "deps=%s|ign=%s" % (deps, ";".join(ign)) + ("" if alo else "|at_least_one-differs") + "|H=ok" + self.flat_tag()
 
     def graph(self):
         g = {}
-        for k in range(self.npoints):
-            g.update(dr.get_dependency_graph(self.comps[self.nctx + k]))
+        for p in self.points:
+            g.update(dr.get_dependency_graph(self.comps[p]))
         return g
 
     def run(self, active, outcome, mode):
@@ -227,61 +243,128 @@ class SWorld(object):
                 r, a = b.missing_requirements[c]
                 miss.append("%d:%s/%s" % (cid, ";".join(str(self.ids[x]) for x in r),
                                           "&".join(";".join(str(self.ids[x]) for x in g) for g in a)))
-        return "inst=%s|missing=%s|inv=%s" % (" ".join(inst), " ".join(miss), ",".join(map(str, sorted(set(self.calls)))))
+        return "inst=%s|missing=%s|inv=%s" % (" ".join(inst), " ".join(miss), ",".join(map(str, sorted(set(self.calls))))) + self.flat_tag()
 
 
 # --------------------------------------------------------------------------- generator-side semantics of a case
 
-def tree_walk(case):
-    """contexts in the dependency tree of each implementation WHEN ITS CLASS IS CREATED (what the history
-    hands to the model): own contexts, the helper's, and — through a dependency on a registry point — those
-    of the implementations wired to that point so far"""
-    walk = {}
-    wired = {}         # name -> entries wired to the point so far
+class Analysis(object):
+    """
+    What the generator knows about a (prefix of a) history, computed from the class hierarchy alone and
+    independently of the implementation: which attribute is wired to which registry point, which spec every
+    registry point and implementation belongs to (a point re-declared down a chain of classes that all declare
+    the name is the SAME spec as the topmost point of the chain), and the contexts in each implementation's
+    dependency tree at the moment its class is created.
+      families: (top class, name) -> {"members": implementations in registration order, "points": point ids, top first}
+      wired: point id -> attributes wired to it, in order (implementations and re-declared points)
+    """
 
-    def now(e):
+    def __init__(self, case):
+        self.case = case
+        nctx, npoints = case["nctx"], case["npoints"]
+        self.registry = {-1: dict((k, nctx + k) for k in range(npoints))}
+        self.parent = {}
+        self.walk = {}
+        self.wired = dict((nctx + k, []) for k in range(npoints))
+        self.families = {}
+        self.point_family = {}
+        for k in range(npoints):
+            self.families[(-1, k)] = {"members": [], "points": [nctx + k]}
+            self.point_family[nctx + k] = (-1, k)
+        for ci, cd in enumerate(case["classes"]):
+            self.parent[ci] = cd["parent"]
+            self.registry[ci] = {}
+            chain = self.chain(ci)
+            for e in cd["entries"]:
+                name = e["name"]
+                if e["kind"] == "point":
+                    self.registry[ci][name] = e["cid"]
+                    self.wired[e["cid"]] = []
+                self.walk[e["cid"]] = self.now(e)
+                pre = []
+                for k in chain:
+                    if name not in self.registry[k]:
+                        break
+                    pre.append(k)
+                if pre:                       # wired: the base class declares the name
+                    self.wired[self.registry[chain[0]][name]].append(e)
+                    key = (pre[-1], name)
+                    if e["kind"] == "point":
+                        self.families[key]["points"].append(e["cid"])
+                        self.point_family[e["cid"]] = key
+                    else:
+                        self.families[key]["members"].append(e)
+                elif e["kind"] == "point":    # the top of a new spec
+                    self.families[(ci, name)] = {"members": [], "points": [e["cid"]]}
+                    self.point_family[e["cid"]] = (ci, name)
+
+    def chain(self, ci):
+        out, k = [], self.parent[ci]
+        while True:
+            out.append(k)
+            if k < 0:
+                return out
+            k = self.parent[k]
+
+    def walk_point(self, p):
+        w = set()
+        for x in self.wired.get(p, []):
+            w |= self.walk_point(x["cid"]) if x["kind"] == "point" else self.now(x)
+        return w
+
+    def now(self, e):
+        if e["kind"] == "point":
+            return self.walk_point(e["cid"])
         w = set(e["ctxs"])
         if e["kind"] == "pdep":
-            for x in wired.get(e["pdep"], []):
-                w |= now(x)
+            w |= self.walk_point(self.case["nctx"] + e["pdep"])
         return w
-    for cd in case["classes"]:
-        for e in cd["entries"]:
-            walk[e["cid"]] = now(e)
-            if cd["parent"] < 0 and e["name"] < case["npoints"]:
-                wired.setdefault(e["name"], []).append(e)
-    return walk
+
+    def subtree(self, p):
+        """the implementations below the registry point p"""
+        out = []
+        for x in self.wired.get(p, []):
+            out.extend(self.subtree(x["cid"]) if x["kind"] == "point" else [x])
+        return out
+
+    def runnable(self, e, c):
+        """can the requirements of implementation `e` be met when `c` is the only context supplied (every
+        component succeeding)?  — 'e is declared for c' in the sense of the property"""
+        k = e["kind"]
+        if k in ("free", "viafree"):
+            return True
+        if k in ("single", "group", "via"):
+            return c in e["ctxs"]
+        if k == "pdep":
+            return c in e["ctxs"] and any(self.runnable(x, c) for x in self.subtree(self.case["nctx"] + e["pdep"]))
+        raise ValueError(k)
+
+    def classify(self, key):
+        """known-finding id a failure on the spec `key` is an instance of (predicate on the INPUT), or None"""
+        members = self.families[key]["members"]
+        if any(e["kind"] in ("free", "viafree") for e in members):
+            return F_FREE
+        if any(e["kind"] == "pdep" for e in members):
+            return F_REACH
+        return None
+
+    def hier(self, key):
+        return len(self.families[key]["points"]) > 1
 
 
-def runnable(case, e, c, depth=0):
-    """can the requirements of implementation `e` be met when `c` is the only context supplied (every
-    component succeeding)?  — 'e is declared for c' in the sense of the property"""
-    k = e["kind"]
-    if k in ("free", "viafree"):
-        return True
-    if k in ("single", "group", "via"):
-        return c in e["ctxs"]
-    if k == "pdep":
-        if c not in e["ctxs"]:
-            return False
-        return any(runnable(case, x, c, depth + 1) for cd in case["classes"] if cd["parent"] < 0
-                   for x in cd["entries"] if x["name"] == e["pdep"])
-    raise ValueError(k)
+def tree_walk(case):
+    return Analysis(case).walk
 
 
-def classify(case, name):
-    """known-finding id a failure on spec `name` is an instance of (predicate on the INPUT), or None"""
-    impls = [e for cd in case["classes"] if cd["parent"] < 0 for e in cd["entries"] if e["name"] == name]
-    if any(e["kind"] in ("free", "viafree") for e in impls):
-        return F_FREE
-    if any(e["kind"] == "pdep" for e in impls):
-        return F_REACH
-    return None
+def spec_name(key):
+    return "p%d of %s" % (key[1], "the root class" if key[0] < 0 else "class %d" % key[0])
 
 
 def oracle(report, world, case, active, b, err, desc):
     """the property on the implementation's observable behaviour, one active context; `case` is the history
-    as far as it has been created when the evaluation takes place, `desc` what a replay needs"""
+    as far as it has been created when the evaluation takes place, `desc` what a replay needs.
+    A spec = a top-level registry point together with its re-declarations down the class chain; ALL
+    implementations wired to any of these points compete, whatever level they are attached at."""
     if err is not None:
         report.failure("dr.run raised %r" % (err,), desc)
         return
@@ -289,22 +372,22 @@ def oracle(report, world, case, active, b, err, desc):
         return
     c = active[0]
     called = set(world.calls)
-    for name in range(world.npoints):
-        impls = world.impls_of(name)
-        fid = classify(case, name)
-        L = [e for e in impls if runnable(case, e, c)]
-        point = world.comps[world.nctx + name]
+    A = Analysis(case)
+    for key, fam in sorted(A.families.items()):
+        impls = fam["members"]
+        fid = A.classify(key)
+        sp = spec_name(key)
+        L = [e for e in impls if A.runnable(e, c)]
         for e in L[:-1]:
             if e["cid"] in called:
-                report.failure("spec p%d: implementation %d ran although the later %d is declared for the active context %d"
-                               % (name, e["cid"], L[-1]["cid"], c), desc, finding=fid)
+                report.failure("spec %s: implementation %d ran although the later %d is declared for the active context %d"
+                               % (sp, e["cid"], L[-1]["cid"], c), desc, finding=fid)
         for e in impls:
-            if not runnable(case, e, c) and e["cid"] in called:
-                report.failure("spec p%d: implementation %d, declared for other contexts only, ran under context %d"
-                               % (name, e["cid"], c), desc, finding=fid)
-        if L:
-            last = L[-1]
-            lc = world.comps[last["cid"]]
+            if not A.runnable(e, c) and e["cid"] in called:
+                report.failure("spec %s: implementation %d, declared for other contexts only, ran under context %d"
+                               % (sp, e["cid"], c), desc, finding=fid)
+        last = L[-1] if L else None
+        if last is not None:
             # were its requirements met?  (helper / other registry point present in the final broker)
             req_ok = True
             if last["kind"] in ("via", "viafree"):
@@ -312,18 +395,23 @@ def oracle(report, world, case, active, b, err, desc):
             elif last["kind"] == "pdep":
                 req_ok = world.comps[world.nctx + last["pdep"]] in b.instances
             if req_ok and last["cid"] not in called:
-                report.failure("spec p%d: the latest implementation declared for context %d (%d) has its requirements met but was not executed"
-                               % (name, c, last["cid"]), desc, finding=fid)
-            if lc in b.instances:
-                if point not in b.instances or b.instances[point] is not b.instances[lc] and b.instances[point] != b.instances[lc]:
-                    report.failure("spec p%d: value %r is not the one produced by the latest implementation for context %d (%d: %r)"
-                                   % (name, b.instances.get(point, "<absent>"), c, last["cid"], b.instances[lc]), desc, finding=fid)
+                report.failure("spec %s: the latest implementation declared for context %d (%d) has its requirements met but was not executed"
+                               % (sp, c, last["cid"]), desc, finding=fid)
+        # the value seen at EVERY level's registry point
+        for p in fam["points"]:
+            point = world.comps[p]
+            below = last is not None and any(x["cid"] == last["cid"] for x in A.subtree(p))
+            lvl = "registry point %d (%s)" % (p, "top level" if p == fam["points"][0] else "re-declared")
+            if below and world.comps[last["cid"]] in b.instances:
+                lv = b.instances[world.comps[last["cid"]]]
+                if point not in b.instances or (b.instances[point] is not lv and b.instances[point] != lv):
+                    report.failure("spec %s, %s: value %r is not the one produced by the latest implementation for context %d (%d: %r)"
+                                   % (sp, lvl, b.instances.get(point, "<absent>"), c, last["cid"], lv), desc, finding=fid)
             elif point in b.instances:
-                report.failure("spec p%d: present with %r although the latest implementation for context %d (%d) produced nothing"
-                               % (name, b.instances[point], c, last["cid"]), desc, finding=fid)
-        elif point in b.instances:
-            report.failure("spec p%d: present with %r although no implementation is declared for context %d"
-                           % (name, b.instances[point], c), desc, finding=fid)
+                why = ("the latest implementation for context %d (%d) produced nothing" % (c, last["cid"]) if below else
+                       "the latest implementation for context %d (%d) is not below this point: everything below it is overridden"
+                       % (c, last["cid"]) if last is not None else "no implementation is declared for context %d" % c)
+                report.failure("spec %s, %s: present with %r although %s" % (sp, lvl, b.instances[point], why), desc, finding=fid)
 
 
 # --------------------------------------------------------------------------- generation
@@ -331,27 +419,50 @@ def oracle(report, world, case, active, b, err, desc):
 def gen_case(rng, quick, allow_findings=True):
     nctx = rng.randint(2, 4)
     npoints = rng.randint(1, 4)
-    nclasses = rng.randint(1, 5)
+    hier = rng.random() < 0.4            # hierarchies deeper than two levels: points re-declared in intermediate classes
+    nclasses = rng.randint(3, 7) if hier else rng.randint(1, 5)
+    if hier and rng.random() < 0.5:
+        nctx, npoints = 2, rng.randint(1, 2)
     next_id = [nctx + npoints]
 
     def nid():
         next_id[0] += 1
         return next_id[0] - 1
     classes = []
+    registry = {-1: set(range(npoints))}      # names each class declares as registry points
     wired_names = set()
+    n_mid = rng.randint(1, 3) if hier else 0
     for ci in range(nclasses):
-        directs = [i for i, cd in enumerate(classes) if cd["parent"] < 0]
+        earlier = list(range(ci))
+        mids = [i for i in earlier if registry[i]]
         parent = -1
-        if directs and rng.random() < 0.12:
-            parent = rng.choice(directs)          # a grandchild: registers against nothing
+        if hier:
+            r = rng.random()
+            if ci < n_mid:
+                parent = rng.choice([-1] + mids) if rng.random() < 0.8 else (rng.choice(earlier) if earlier else -1)
+            elif mids and r < 0.6:
+                parent = rng.choice(mids)
+            elif earlier and r < 0.68:
+                parent = rng.choice(earlier)
+        elif earlier and rng.random() < 0.12:
+            parent = rng.choice(earlier)              # a grandchild: registers against nothing
         entries = []
-        names = [k for k in range(npoints + 1) if rng.random() < (0.75 if k < npoints else 0.15)]
+        registry[ci] = set()
+        if hier and rng.random() < 0.8 and registry[parent]:
+            names = [k for k in sorted(registry[parent]) if rng.random() < 0.85] or [rng.choice(sorted(registry[parent]))]
+            names += [k for k in range(npoints + 1) if k not in names and rng.random() < 0.15]
+        else:
+            names = [k for k in range(npoints + 1) if rng.random() < (0.75 if k < npoints else 0.15)]
         if not names:
             names = [rng.randrange(npoints)]
         for name in names:
             r = rng.random()
             e = {"name": name, "cid": None, "ctxs": [], "helper": None, "pdep": None}
-            if allow_findings and r < 0.04:
+            p_point = (0.85 if ci < n_mid else 0.08) if hier else 0.03
+            if rng.random() < p_point:
+                e["kind"] = "point"
+                registry[ci].add(name)
+            elif allow_findings and r < 0.04:
                 e["kind"] = "free"
             elif allow_findings and r < 0.06:
                 e["kind"] = "viafree"
@@ -372,20 +483,26 @@ def gen_case(rng, quick, allow_findings=True):
                 e["ctxs"] = rng.sample(range(nctx), rng.choice([1, 1, 2]))
             e["cid"] = nid()
             entries.append(e)
-            if parent < 0 and name < npoints:
+            if parent < 0 and name < npoints and e["kind"] != "point":
                 wired_names.add(name)
         classes.append({"parent": parent, "entries": entries})
     return {"nctx": nctx, "serialized": rng.random() < 0.1, "npoints": npoints, "classes": classes}
 
 
 def gen_outcome(rng, world, style):
-    cids = [c for c in world.univ() if c >= world.nctx + world.npoints]
+    cids = sorted(world.decls)
     if style == "all-v":
         return dict((c, "v") for c in cids)
     if style == "one-bad":
         o = dict((c, "v") for c in cids)
         if cids:
             o[rng.choice(cids)] = rng.choice(OUTCOMES[1:])
+        return o
+    if style == "latest-bad":
+        # the implementations registered last yield nothing / skip / fail, everything else succeeds
+        o = dict((c, "v") for c in cids)
+        for c in cids[-rng.randint(1, 3):]:
+            o[c] = rng.choice(OUTCOMES[1:])
         return o
     return dict((c, rng.choice(OUTCOMES)) for c in cids)
 
@@ -420,16 +537,22 @@ def check_world(chk, report, rng, case, lines, impl, cases, runs_per_ctx):
         impl.append(text)
         cases.append({"case": case, "what": what, "classes-created": world.defined, "active": active, "outcome": outs_text(outcome)})
         if chk is not None:
-            shape = (tuple(tuple((e["name"], e["kind"], tuple(e["ctxs"])) for e in cd["entries"]) + (cd["parent"] < 0,)
+            A = Analysis(world.pcase())
+            shape = (tuple(tuple((e["name"], e["kind"], tuple(e["ctxs"])) for e in cd["entries"]) + (cd["parent"],)
                            for cd in case["classes"][:world.defined]), len(script), tuple(active),
                      tuple(sorted(outcome.values())), text.split("|inv=")[1])
-            nimpl = max([len(world.impls_of(k)) for k in range(world.npoints)] or [0])
+            nimpl = max([len(f["members"]) for f in A.families.values()] or [0])
             chk.case(shape, nontrivial=len(active) == 1 and nimpl >= 2 and bool(world.calls))
             chk.count("max-impls-per-spec:%d" % min(nimpl, 5))
             chk.count("active-contexts:%d" % len(active))
             chk.count("invoked:%d" % min(len(set(world.calls)), 6))
             chk.count("evaluation:" + ("interleaved(before-later-classes)" if what == "prefix-run" else
                                        "after-whole-history" + ("+earlier-evaluations" if evals_at else "")))
+            if len(active) == 1:
+                for key, f in A.families.items():
+                    if len(f["points"]) > 1 and f["members"]:
+                        levels = set(next(p for p in f["points"] if any(x is e for x in A.wired[p])) for e in f["members"])
+                        chk.count("evaluation-of-spec-with-redeclared-point:implementations-at-%d-level(s)" % min(len(levels), 3))
             for o in outcome.values():
                 chk.count("outcome:" + o)
 
@@ -448,14 +571,16 @@ def check_world(chk, report, rng, case, lines, impl, cases, runs_per_ctx):
     lines.append(world.reg_line())
     impl.append(world.reg_text())
     cases.append({"case": case, "what": "registration"})
-    # the rule, read off the history: which implementation supplies (model) vs the generator's own notion
-    for name in range(world.npoints):
-        for c in range(world.nctx):
-            if classify(case, name) is None:
-                L = [e["cid"] for e in world.impls_of(name) if runnable(case, e, c)]
-                lines.append("sup\t%d\t%d" % (name, c))
+    # the rule, read off the history: which implementation supplies (model: last entry of the handler table of
+    # the spec's top class) vs the generator's own notion
+    A = Analysis(case)
+    for key, fam in sorted(A.families.items()):
+        if A.classify(key) is None:
+            for c in range(world.nctx):
+                L = [e["cid"] for e in fam["members"] if A.runnable(e, c)]
+                lines.append("hsup\t%d\t%d\t%d" % (key[0] + 1, key[1], c))
                 impl.append(str(L[-1]) if L else "none")
-                cases.append({"case": case, "what": "supplier p%d ctx %d" % (name, c)})
+                cases.append({"case": case, "what": "supplier %s ctx %d" % (spec_name(key), c)})
     # evaluation
     actives = [[c] for c in range(world.nctx)]
     if rng.random() < 0.3:
@@ -464,13 +589,16 @@ def check_world(chk, report, rng, case, lines, impl, cases, runs_per_ctx):
         actives.append(sorted(rng.sample(range(world.nctx), 2)))
     for active in actives:
         for j in range(runs_per_ctx):
-            evaluate(active, ["all-v", "one-bad", "random", "random"][j % 4], "run")
+            evaluate(active, ["all-v", "latest-bad", "one-bad", "random"][j % 4], "run")
     if chk is not None:
         chk.count("history:%d-interleaved-evaluations" % sum(evals_at.values()))
+        depth = max([len(A.chain(ci)) for ci in range(n)] or [0]) + 1
+        chk.count("history:class-hierarchy-depth-%d" % min(depth, 5))
+        chk.count("history:" + ("with-redeclared-points" if any(len(f["points"]) > 1 for f in A.families.values()) else "points-in-root-only"))
         for cd in case["classes"]:
-            chk.count("class:" + ("direct" if cd["parent"] < 0 else "grandchild"))
+            chk.count("class:" + ("extends-root" if cd["parent"] < 0 else "extends-earlier-class"))
             for e in cd["entries"]:
-                chk.count("impl:" + e["kind"] + ("" if e["name"] < case["npoints"] else "(not-a-point)"))
+                chk.count("impl:" + e["kind"] + ("" if e["name"] < case["npoints"] else "(not-a-root-point)"))
     return world
 
 
@@ -646,20 +774,30 @@ def run(chk):
     quick = chk.tier == "quick"
     n_worlds = 700 if quick else 12000
     runs_per_ctx = 4 if quick else 8
-    chk.rule = ("random registration histories of REAL SpecSet classes: 1-5 implementing classes (12% grandchildren, which must "
-                "register nothing), 1-4 registry points plus a non-point attribute, implementations bound to fresh ExecutionContext "
+    chk.rule = ("random registration histories of REAL SpecSet classes: 1-7 classes extending the root or ANY earlier class; 40% of "
+                "the histories are hierarchies deeper than two levels in which intermediate classes RE-DECLARE registry points "
+                "(chains of up to 4 re-declarations, gaps in the chain, new top-level points in subclasses) and implementations are "
+                "attached at different levels in both registration orders, for the same and for different contexts; the parents "
+                "chain handed to the model is read off the real cls.__mro__; the value is checked at EVERY level's registry point; "
+                "1-4 root registry points plus a non-point attribute, implementations bound to fresh ExecutionContext "
                 "subclasses (single context, [ctxA, ctxB] group, through a helper datasource; rarely context-free or depending on "
                 "another registry point = the two known findings); 85% of the histories with >= 2 classes have 1-3 evaluations "
                 "INTERLEAVED between class definitions (late registration: fresh broker, freshly computed graph, random active "
                 "context, compared with the model's evaluation of the same prefix, same oracle); after the whole history "
                 "every context active in turn (+ none / two), outcomes "
-                "value/None/SkipComponent/ContentException/crash per implementation and helper (all-succeed, one failing, random); "
+                "value/None/SkipComponent/ContentException/crash per implementation and helper (all-succeed, latest-registered failing, "
+                "one failing, random); "
                 "non-trivial = one active context, a spec with >= 2 wired implementations, something invoked; "
                 "distinct = history shape x active context x outcome multiset x invocation log")
     chk.assumptions = [
         "'declared for context c' in the oracle = the implementation's requirements can be met when c is the only context supplied "
         "(from the generated shape); in the model = the contexts _get_ctx_dependencies finds (handed over by the generator's own tree walk)",
-        "spec-set classes other than the root do not declare RegistryPoints of their own (not modelled)",
+        "hierarchies (registry points re-declared in intermediate classes): a spec = the top-level point plus its "
+        "re-declarations down a chain of classes that all declare the name; hypothesis (H) of hier_point_value_partial "
+        "(every implementation of the spec is in the top class's handler table for each of its contexts) is computed by the "
+        "driver on every generated history (H=ok in the registration streams), not proved from the fold in general",
+        "the flat model (theorems registration_lists .. point_value_partial) and the hierarchical model are both evaluated by "
+        "the driver on histories where only the root declares points and must agree (flat=agree in every compared line)",
         "shipped spec sets: registration order of the classes = Specs.__subclasses__() order; 'declared for' = membership in "
         "Specs.context_handlers (the implementation's own bookkeeping), so this stream checks the rule given that bookkeeping",
     ]
@@ -688,16 +826,22 @@ def run(chk):
         case = gen_case(rng, quick)
         check_world(chk, chk, rng, case, lines, impl, cases, runs_per_ctx)
     model = run_driver("C05", lines)
-    answers = [m for l, m in zip(lines, model) if l.split("\t")[0] in ("reg", "sup", "run")]
-    bad = [m for l, m in zip(lines, model) if l.split("\t")[0] not in ("reg", "sup", "run") and m != "ok"]
+    answers = [m for l, m in zip(lines, model) if l.split("\t")[0] in ("hreg", "hsup", "hrun")]
+    bad = [m for l, m in zip(lines, model) if l.split("\t")[0] not in ("hreg", "hsup", "hrun") and m != "ok"]
     if bad:
         chk.tie_broken("protocol", "driver rejected %d world lines" % len(bad), bad[:3])
+    def is_hier(c):
+        k = c.get("classes-created", len(c["case"]["classes"]))
+        return any(e["kind"] == "point" for cd in c["case"]["classes"][:k] for e in cd["entries"])
     for what, name in (("registration", "registration(deps,IGNORE)"), ("supplier", "rule(supplier)"),
                        ("run", "evaluation(values,missing,invocations)"),
                        ("prefix-registration", "interleaved:registration-of-prefix"),
                        ("prefix-run", "interleaved:evaluation-of-prefix")):
-        sel = [i for i, c in enumerate(cases) if c["what"].startswith(what)]
-        chk.compare(name, [cases[i] for i in sel], [impl[i] for i in sel], [answers[i] for i in sel])
+        for hier in (False, True):
+            sel = [i for i, c in enumerate(cases) if c["what"].startswith(what) and is_hier(c) == hier]
+            if sel:
+                chk.compare(name + (":hierarchy(points re-declared in intermediate classes)" if hier else ""),
+                            [cases[i] for i in sel], [impl[i] for i in sel], [answers[i] for i in sel])
     for i in (0, 1, len(cases) - 1):
         chk.sample({"what": cases[i]["what"], "impl": impl[i], "model": answers[i]})
     # ---- shipped spec sets
